@@ -572,7 +572,7 @@ class Prop(object):
                     continue          # format u promises UTF-8
                 # (signatures in text mode - type 0x01, made over the text with its line ends as CR LF - on text literals, alone and next to a binary-mode
                 # signature: what 'gpg --textmode --sign' writes; the one-pass packet announces the type of its signature)
-                for nsig, framing, modes in [(n, f, (0x00, 0x00)) for n in (0, 1, 2) for f in ('new', 'old', 'partial')] + \
+                for nsig, framing, modes in [(n, f, (0x00, 0x00)) for n in (0, 1, 2) for f in ('new', 'old', 'partial')] + [(0, 'indeterminate', (0x00, 0x00))] + \
                         ([(n, 'new', md) for n in (1, 2) for md in ((0x01, 0x00), (0x01, 0x01), (0x00, 0x01))[:1 if n == 1 else 3]] if fmt in ('t', 'u') else []):
                     for _once in (0,):
                         r.states += 1
@@ -583,6 +583,9 @@ class Prop(object):
                             lit_pkt = wire.packet(11, lit_body, 'new', chunks=[0, 1] if len(lit_body) > 3 else None)
                         elif framing == 'partial':
                             lit_pkt = wire.packet(11, lit_body, 'new', chunks=[9, 9])
+                        elif framing == 'indeterminate':
+                            # old format, length type 3: the packet is everything up to the end of the input (legal for a packet that stands last)
+                            lit_pkt = wire.packet(11, lit_body, 'old', 0)
                         else:
                             lit_pkt = wire.packet(11, lit_body, framing)
                         seq = b''
@@ -629,6 +632,18 @@ class Prop(object):
                             probs += ['re-export: ' + x for x in p2]
                             if rec is not None and not p2 and (rec['literal'] != rmsg.parse_literal(lit_body)):
                                 probs.append('re-export changes the literal packet fields')
+                            if nsig == 0:
+                                # a message that came in unsigned is signed now: its export is one-pass packet, the literal, the signature - whatever
+                                # framing the literal arrived in
+                                sk_, _sr = S.signer_cert('ed25519a')
+                                m |= sk_.sign(m, hash=pgpy.constants.HashAlgorithm.SHA256, created=K.dt(K.T0 + 99))
+                                r.transitions += 1
+                                p4, rec4 = self._grammar(bytes(m), 1, comp, label)
+                                probs += ['export after a signature was added: ' + x for x in p4]
+                                if not p4:
+                                    m5 = pgpy.PGPMessage.from_blob(bytes(m))
+                                    if len(m5.signatures) != 1 or not sk_.pubkey.verify(m5) or A.msg_view(m5)['data'] != data:
+                                        probs.append('the message signed after import does not come back with its content and one valid signature')
                         except Exception as e:
                             probs.append('raises %r' % (e,))
                         r.outcomes['ok' if not probs else 'violation'] += 1
